@@ -124,6 +124,31 @@ func zooCases(thorough bool) []zooCase {
 		if ni > 0 {
 			continue // WITHOUT ROWID tables have no rowid keywords to shadow
 		}
+		// --- rowid tables whose primary key is NOT the rowid: column level and table level, ASC and DESC (an
+		// INTEGER PRIMARY KEY DESC column is not an alias), with UNIQUE constraints next to it
+		for pi, def := range []string{
+			"CREATE TABLE z (a, b TEXT PRIMARY KEY DESC, c, d)",
+			"CREATE TABLE z (a, b INTEGER PRIMARY KEY DESC, c, d)",
+			"CREATE TABLE z (a, b TEXT COLLATE NOCASE PRIMARY KEY, c UNIQUE, d)",
+			"CREATE TABLE z (a, b, c, d, PRIMARY KEY (b DESC))",
+			"CREATE TABLE z (a, b TEXT COLLATE NOCASE, c, d, PRIMARY KEY (c, b DESC), UNIQUE (b COLLATE BINARY, a DESC))",
+			"CREATE TABLE z (a INT PRIMARY KEY, b, c, d, UNIQUE (d DESC, c))",
+			"CREATE TABLE z (a, b, c PRIMARY KEY DESC UNIQUE, d UNIQUE)",
+		} {
+			stmts := []string{def}
+			for i := 0; i < 14; i++ {
+				vals := []string{fmt.Sprint(i % 4), fmt.Sprintf("'k%d'", i), fmt.Sprint(20 - i), fmt.Sprintf("'d%d'", i)}
+				if pi == 1 {
+					vals[1] = fmt.Sprint(i * 3)
+				}
+				if pi == 5 {
+					vals[0] = fmt.Sprint(i)
+				}
+				stmts = append(stmts, "INSERT OR IGNORE INTO z VALUES ("+strings.Join(vals, ", ")+")")
+			}
+			stmts = append(stmts, "ALTER TABLE z ADD COLUMN e DEFAULT 'dflt'")
+			out = append(out, zooCase{name: fmt.Sprintf("rowid table with index-backed primary key #%d", pi), stmts: stmts})
+		}
 		// --- WITHOUT ROWID: every ordered subset of the 4 columns as primary key (size 1..3), DESC masks, secondary indexes over every ordered subset of size 1..2
 		pks := orderedSubsets(4, 3)
 		for pi, pk := range pks {
@@ -290,6 +315,7 @@ func zooEq(r *ev.Run, l *lite.DB, img []byte, zc zooCase, art map[string]interfa
 		if sc.NamedIndex(ix.Name) == nil {
 			continue
 		}
+		pkBacked := !t.WithoutRowid && ix.Origin == "pk"
 		var keyCols []LiteIndexCol
 		for _, c := range ix.Cols {
 			if c.Key {
@@ -344,6 +370,16 @@ func zooEq(r *ev.Run, l *lite.DB, img []byte, zc zooCase, art map[string]interfa
 				if !RowsEq(got, want, true) {
 					r.Violation("C03:zoo:"+c01DiffClass(got, want), fmt.Sprintf("%s: IndexedSelectEq(%s [%s], %s): got %v, SQLite %v", zc.name, ix.Name, ix.SQL, RowS(key), clip(RowsS(got)), clip(RowsS(want))), a2)
 					return
+				}
+				if pkBacked {
+					// the same through PKSelect
+					var got2 [][]interface{}
+					gerr := h.PKSelect(t.Name, sqlittle.Key(key), func(row sqlittle.Row) { got2 = append(got2, CopyRow(row)) }, sel...)
+					r.Trans(1)
+					if gerr != nil || !RowsEq(got2, want, true) {
+						r.Violation("C03:zoo:PKSelect", fmt.Sprintf("%s: PKSelect(%s) on a rowid table with an index-backed primary key: err=%v got %v, SQLite %v", zc.name, RowS(key), gerr, clip(RowsS(got2)), clip(RowsS(want))), a2)
+						return
+					}
 				}
 			}
 		}
